@@ -377,7 +377,9 @@ pub fn run(tier: &str) -> i32 {
         vec![
             (Network::Regtest, 1, 4, vec![1], all.clone(), 2, vec![0], 1),
             (Network::Regtest, 2, 4, vec![1], all.clone(), 2, vec![0, 1], 0),
-            (Network::Regtest, 2, 5, vec![1, 2], vec![BODY_CB, BODY_SHARED], 1, vec![0], 0),
+            (Network::Regtest, 2, 5, vec![1, 2], vec![BODY_CB, BODY_SHARED, BODY_SPEND_PARENT], 1, vec![0], 0),
+            // announced headers (the parts with at most two bodies offer one header event)
+            (Network::Regtest, 2, 4, vec![1], vec![BODY_CB], 0, vec![0], 1),
         ]
     } else {
         vec![
@@ -387,6 +389,8 @@ pub fn run(tier: &str) -> i32 {
             (Network::Regtest, 2, 6, vec![1, 2], vec![BODY_CB, BODY_SHARED, BODY_SPEND_PARENT], 2, vec![0], 1),
             (Network::Mainnet, 2, 4, vec![1, 2], all.clone(), 2, vec![0, 1], 1),
             (Network::Testnet, 1, 4, vec![1], all.clone(), 2, vec![0, 1], 1),
+            (Network::Regtest, 2, 5, vec![1, 2], vec![BODY_CB], 0, vec![0, 1], 1),
+            (Network::Regtest, 1, 5, vec![1], vec![BODY_CB, BODY_SPEND_PARENT], 1, vec![0], 1),
         ]
     };
     for (net, theta, n, diffs, bodies, sp, budgets, ups) in parts {
@@ -395,6 +399,12 @@ pub fn run(tier: &str) -> i32 {
         alpha.budgets = budgets.clone();
         alpha.upgrades = vec![0];
         alpha.max_upgrades = ups;
+        // announced headers (direct call into insert_next_block_headers): regtest only,
+        // they must be mined to validate
+        if net == Network::Regtest && bodies.len() <= 2 {
+            alpha.hdr_lens = vec![1, 3];
+            alpha.max_hdr_events = 1;
+        }
         let m = ChainModel {
             cfg: WorldCfg::on(net, theta),
             alpha,
@@ -410,7 +420,7 @@ pub fn run(tier: &str) -> i32 {
     }
     rep.rule = "LEDGER/TREE histories (forks discarded at different depths, transactions shared between forks, outputs spent across forks) with upgrades and sliced ingestion; in every state the serialised unstable-block bookkeeping (tree, tx-out cache with reference counts, per-block address deltas, cached tip depths, announced headers) and the block cache in stable memory are compared with what the blocks currently below the anchor require, recomputed from the block bodies; all queries and the fee computation must find every entry they need".into();
     rep.bounds = json!({"tier": tier});
-    rep.assume("announced headers are exercised by C14's histories (same structural checks are applied there)");
+    rep.assume("announced headers: one header event (chains of 1 and 3) per history here; C14 explores them more densely with the same structural checks");
     rep.floor("bookkeeping_states_checked", 5000);
     rep.floor("advances_discarding_blocks", 100);
     rep.floor("advances_discarding_two_or_more_blocks", 10);
